@@ -168,6 +168,7 @@ fn c12(r: &mut Rng, i: u64, _p: &HashMap<String, String>) -> Vec<Value> {
     let mut kids: Vec<N> = Vec::new();
     let mut cur = String::new();
     let short = r.chance(1, 2);
+    let mut css = false;
     for l in 0..nlines {
         if l > 0 {
             if r.chance(1, 6) { if !cur.is_empty() { kids.push(N::T(std::mem::take(&mut cur))); } kids.push(N::el("br", vec![])); }
@@ -183,7 +184,13 @@ fn c12(r: &mut Rng, i: u64, _p: &HashMap<String, String>) -> Vec<Value> {
                     // an inline element around a word
                     if !cur.is_empty() { kids.push(N::T(std::mem::take(&mut cur))); }
                     let wd: String = (0..r.range(1, 6)).map(|_| *r.pick(&alpha)).collect();
-                    kids.push(N::el(*r.pick(&["em", "span", "strong", "code"]), vec![N::T(wd)]));
+                    let mut e = N::el(*r.pick(&["em", "span", "strong", "code"]), vec![N::T(wd)]);
+                    // a white-space mode of its own on the word (CSS): the rest of the block stays preformatted
+                    if r.chance(1, 6) {
+                        css = true;
+                        if r.chance(1, 2) { e.add_attr("style", format!("white-space: {}", *r.pick(&["normal", "nowrap", "pre-line"]))); } else { e.add_attr("class", "kw".to_string()); }
+                    }
+                    kids.push(e);
                 }
                 _ => for _ in 0..r.range(1, 8) { cur.push(*r.pick(&alpha)) },
             }
@@ -197,13 +204,15 @@ fn c12(r: &mut Rng, i: u64, _p: &HashMap<String, String>) -> Vec<Value> {
         1 => (vec![N::el("ul", vec![N::el("li", vec![pre])])], 2),
         _ => (vec![pre], 0),
     };
-    let w = r.range(1, 60);
+    // (with such a word the width leaves every line unwrapped: a word in normal mode wraps differently)
+    let w = if css { r.range(150, 200) } else { r.range(1, 60) };
     let html = doc_html(&body);
     let rich = r.chance(2, 3);
     let (deco, route) = if rich { ("rich", "lines") } else { (*r.pick(&["trivial", "rich"]), "string") };
     // the trivial decorator has no block prefixes
     let pw = if deco == "trivial" { 0 } else { pw };
-    vec![json!({"id": id("c12", i), "meta": {"pw": pw}, "runs": [run(&html, w, cfg(deco, vec![]), route)]})]
+    let ops = if css { vec![json!(["doccss"]), json!(["css", ".kw { white-space: normal }"])] } else { vec![] };
+    vec![json!({"id": id("c12", i), "meta": {"pw": pw}, "runs": [run(&html, w, cfg(deco, ops), route)]})]
 }
 
 fn tagged(mut run: Value, tag: &str) -> Value { run["tag"] = json!(tag); run }
@@ -894,6 +903,18 @@ fn css_doc_html_split(r: &mut Rng, author: &Value, body: &[N]) -> String {
     s.push_str("</body></html>");
     s
 }
+/// A second <body ..> / <html ..> start tag inside the document: the parser adds its attributes to the element that
+/// exists already, but only those the element does not have yet - so the first tag's class and id stay.
+fn repeat_root_tags(r: &mut Rng, html: &str, ids: &[String]) -> String {
+    let c1 = *r.pick(CLASSES); let c2 = *r.pick(CLASSES);
+    let id2 = if !ids.is_empty() && r.chance(1, 2) { r.pick(ids).clone() } else { "i77".to_string() };
+    let first = match r.below(3) { 0 => format!("<body class=\"{}\">", c1), 1 => format!("<body class=\"{}\" id=\"i76\">", c1), _ => "<body id=\"i76\">".to_string() };
+    let second = format!("<body class=\"{}\" id=\"{}\" title=\"t\">", c2, id2);
+    let mut out = html.replacen("<body>", &format!("{}{}", first, if r.chance(1, 2) { second.clone() } else { String::new() }), 1);
+    if r.chance(1, 2) { out = out.replacen("</body>", &format!("{}</body>", second), 1); }
+    if r.chance(1, 3) { out = out.replacen("<html>", &format!("<html class=\"{}\">", c1), 1).replacen("</body>", &format!("<html class=\"{}\"></body>", c2), 1); }
+    out
+}
 fn rule(sels: Vec<Value>, decls: Vec<Value>) -> Value { json!({"sels": sels, "decls": decls}) }
 fn col_decl(c: Value, imp: bool) -> Value { json!({"prop": "color", "val": c, "imp": imp}) }
 
@@ -908,6 +929,7 @@ fn c20(r: &mut Rng, i: u64, p: &HashMap<String, String>) -> Vec<Value> {
     let author = json!([rule(sels, vec![col_decl(json!([0, 0, 254]), false)])]);
     let vary = Vary { on: r.chance(1, 2), drop_semi: false, double_semi: false, junk: false, unknown_props: false };
     let html = css_doc_html(&sheet_text(&author, r, &vary), &body);
+    let html = if r.chance(1, 8) { repeat_root_tags(r, &html, &d.ids) } else { html };
     let ops = vec![json!(["agentcss", sheet_text(&agent, r, &canonical())]), json!(["doccss"])];
     let w = r.range(5, wmax(p, 80));
     vec![json!({"id": id("c20", i), "meta": {"css": {"agent": agent, "user": [], "author": author}},
@@ -974,6 +996,7 @@ fn c19(r: &mut Rng, i: u64, p: &HashMap<String, String>) -> Vec<Value> {
     }
     for n in body.iter_mut() { add_inline(r, n, &mut k); }
     let html = if split { css_doc_html_split(r, &author, &body) } else { css_doc_html(&sheet_text(&author, r, &canonical()), &body) };
+    let html = if r.chance(1, 10) { repeat_root_tags(r, &html, &d.ids) } else { html };
     let mut ops = vec![];
     if agent.as_array().unwrap().len() > 0 { ops.push(json!(["agentcss", sheet_text(&agent, r, &canonical())])); }
     if user.as_array().unwrap().len() > 0 { ops.push(json!(["css", sheet_text(&user, r, &canonical())])); }
